@@ -75,6 +75,8 @@ pub fn place_fault(rng: &mut Rng, traj: &[StepPoint]) -> (FaultKind, u64, AllocC
     let within = |rng: &mut Rng, lo: u64, hi: Option<u64>| -> u64 {
         match hi {
             Some(h) if inside && h > lo + 1 => lo + 1 + rng.below(h - lo - 1),
+            // the last step of the trajectory (the run ended or failed inside it): some way in
+            None if inside => lo + 1 + rng.below(1200),
             _ => (lo + d).saturating_sub(1),
         }
     };
